@@ -67,7 +67,7 @@ pub fn check(c: &Case, shard: usize, ctx: Option<&Ctx>) -> Vec<Fail> {
 
 pub fn run(ctx: &Ctx) {
     ctx.rule("tokio runtime: the same generated applications (host sub-apps, HTTP and WebSocket routes, default app) and requests as the threaded check, served by the tokio App with async handlers; same reference router");
-    let cases = ctx.tier.pick(800u32, 20000u32);
+    let cases = ctx.tier.pick(2400u32, 20000u32);
     let nshards = 16;
     crate::engine::shards(nshards, |i| {
         pt::run(
